@@ -10,7 +10,7 @@ from .. import drex
 # S2: the arithmetic kernels of core.py are re-traced from the source on every run and the bridge theorems
 # (lean/Bridge/Drex.lean: traced_f = ModelR.f) are re-checked by the Lean kernel.
 PRE_LEAN = C.s2_trace_core
-EXTRA_LEAN_MODULES = ("Bridge.Drex",)
+EXTRA_LEAN_MODULES = ("Bridge.Drex", "Bridge.DrexSlipRates")
 
 PARTIAL = ["'to floating-point accuracy' is the correspondence tolerance (1e-9 relative); IEEE rounding and numba fastmath "
            "reassociation are not modelled (the refinement theorems are over the reals)"]
